@@ -3,7 +3,7 @@
 set -e
 cd "$(dirname "$0")/.."
 sh tools/ll2c/build.sh
-for t in cbmc kissat clang++-14 gcc python3; do command -v $t >/dev/null || { echo "missing tool $t"; exit 1; }; done
+for t in cbmc kissat clang++-14 opt-14 gcc python3; do command -v $t >/dev/null || { echo "missing tool $t"; exit 1; }; done
 # generated pika config headers: taken from /repo/_build; if that is absent, run the cmake configure step only
 if [ ! -d /repo/_build/libs/pika/config/include ]; then
   mkdir -p .cfg
